@@ -62,3 +62,36 @@ lemma('lock_name_injective', ['C08', 'C09'],
            z3.Concat(p, z3.StringVal('-'), x2, z3.StringVal('-'), y2, z3.StringVal('-'), z2, z3.StringVal('.lck'))] +
           [z3.Not(z3.Contains(v, z3.StringVal(ch))) for v in (x, y, zz, x2, y2, z2) for ch in ('-', '.')],
           z3.And(x == x2, y == y2, zz == z2)))(*z3.Strings('p x y zz x2 y2 z2')))
+
+
+# ---- sqlite level caches: the database file of a level is <cache_dir>/<level>.<ext>, one safe segment below the cache dir --------
+def _level_db_name(ext, ctor):
+    def clause(ex, st, post, result):
+        import z3
+        from pyvc.values import eq, VStr
+        from pyvc import tracelib as T
+        mk = [e for i, e in T.evs(st, ctor)]
+        goal = z3.BoolVal(len(mk) <= 1)
+        for e in mk:
+            h = st.heap[post.env['self'].ref]
+            sp = st.fork()
+            sp.spec = True
+            sp.env = {'d': h['cache_dir'], 'level': post.env['level']}
+            want = ex.ev1(sp, ex.reg.parse_spec("pjoin(d, fmtd(level) + '.%s')" % ext))
+            goal = z3.And(goal, eq(e.args[0], want))
+        yield ('level_database_below_cache_dir', goal,
+               "the database opened for a level is pjoin(cache_dir, str(level) + '.%s'): one path segment made of a number image "
+               "(A-fmt: no '/', no '..') below the cache directory" % ext)
+    return clause
+
+
+for _mod, _cls_, _ext, _ctor, _dictf in (('mapproxy.cache.mbtiles:', 'MBTilesLevelCache', 'mbtile', 'MBTilesCache', '_mbtiles'),
+                                          ('mapproxy.cache.geopackage:', 'GeopackageLevelCache', 'gpkg', 'GeopackageCache', '_geopackage')):
+    cls(_mod + _cls_, fields={'cache_dir': 'str', _dictf: 'opaque', '_%s_lock' % _dictf.strip('_'): 'opaque', 'timeout': 'opaque',
+                              'wal': 'opaque', 'ttl': 'opaque', 'coverage': 'opaque', 'directory_permissions': 'opaque',
+                              'file_permissions': 'opaque', 'file_premissions': 'opaque', 'tile_grid': 'opaque', 'table_name': 'opaque'})
+    contract(_mod + _cls_ + '._get_level', props=['C09'],
+             types=dict(level='int'), returns='opaque', default_callee='opaque',
+             opaque_spec={_ctor: {'pure': True}}, opaque=[_ctor],
+             requires=['level >= 0'],
+             trace=[_level_db_name(_ext, _ctor)])
